@@ -825,7 +825,7 @@ def uvws_form(M, form):
 
 
 FORMS = ('list', 'int-array', 'float-array', 'int32-array')
-REF = ('coplanar', 'non-integer', 'hex4-on-nonhexagonal', 'hex4-sum-nonzero', 'wrong-shape')
+REF = ('coplanar', 'non-integer', 'hex4-on-nonhexagonal', 'hex4-sum-nonzero', 'wrong-shape', 'hex4-non-integer')
 NEAR0 = ('zero', 'small')                 # origins for which the known finding (see KNOWN_ORIGIN_KEY) does not apply
 ALL4 = gen.ORIGINS4
 ALL5 = gen.ORIGINS5
@@ -1077,7 +1077,7 @@ def run(ctx):
     for i in ctx.cases('rotate-refusals', ctx.pick(60, 300)):
         rng = ctx.rng
         kind = REF[i % len(REF)]
-        fam = 'hexagonal' if kind == 'hex4-sum-nonzero' else [k for k in cells.KINDS if k != 'hexagonal'][i % 8]
+        fam = 'hexagonal' if kind in ('hex4-sum-nonzero', 'hex4-non-integer') else [k for k in cells.KINDS if k != 'hexagonal'][i % 8]
         u = gen.gen_unit_cell(rng, fam, NEAR0[i % 2], 1.0, 1 + i % 3, 1, 'corner+generic')
         s = build_system(am, u)
         if kind == 'coplanar':
@@ -1090,6 +1090,13 @@ def run(ctx):
         elif kind == 'hex4-sum-nonzero':
             arg = gen.hex4_rows(gen.sample_matrix(rng, 1), 'reduced')
             arg[int(rng.integers(0, 3)), 2] += 1
+        elif kind == 'hex4-non-integer':
+            # a valid four-index set (u+v+t = 0 in every row) one row of which is not a lattice vector: [uvtw] = U a1 + V a2 + W c
+            # with (U, V, W) = (u - t, v - t, w); the row is shifted by a fraction of a lattice vector, as four-index numbers
+            arg = gen.hex4_rows(gen.sample_matrix(rng, 1), 'raw').astype(float) / 3.0        # exactly the lattice vectors U, V, W
+            f = float(rng.choice([0.5, 0.25, -0.3, 1.5]))
+            d = [np.array([2.0, -1.0, -1.0, 0.0]) / 3.0, np.array([-1.0, 2.0, -1.0, 0.0]) / 3.0, np.array([0.0, 0.0, 0.0, 1.0])][int(rng.integers(0, 3))]
+            arg[int(rng.integers(0, 3))] += f * d
         else:
             arg = gen.sample_matrix(rng, 1)[:2]
         rec.case(('rotate-refusal', kind, fam), nontrivial=True, fp=fingerprint(u['vects'], arg))
